@@ -14,7 +14,7 @@ import (
 // calls are made.
 func TestRAC_C17(t *testing.T) {
 	res := newRacResult("C17")
-	cfgs := []mapCfg{{true, 63}, {true, 0}, {false, 63}, {false, 3}}
+	cfgs := []mapCfg{{Full: true, TotalRows: 63}, {Full: true, TotalRows: 0}, {Full: false, TotalRows: 63}, {Full: false, TotalRows: 3}}
 	maxLeaves, maxBlocks := 6, 3
 	if res.thorough() {
 		maxLeaves, maxBlocks = 7, 4
